@@ -14,6 +14,10 @@ T = {
  'C01': ("Lean 4 theorems over a reflect-like executable model of Pointerify and overlayField/overlayStruct/compose (every branch incl. error and panic exits): C01_precedence (every config struct type of the model universe, every well-typed default, any number of layers, every set/unset pattern: compose succeeds and each leaf holds the last layer's value that set it, else the default), C01_skipped_fixed, C01_struct_ptr_nil_iff, C01_unset_noop, C01_alignment (the two omission rules stay aligned), C01_facts (regenerated F9/F10). Interface-typed fields are outside the model universe (not in the property's quantifier).",
          "Trusted: Lean kernel + propext/Classical.choice/Quot.sound; facts translator (omission rules of ptrify.OmitField / pointerifyField / overlayStruct and the non-struct-pointer branch regenerated from source); correspondence harness (random reflect.StructOf types + declared types with unexported/embedded fields; real Pointerify and compose vs model; leaf-wise oracle). Assumed: reflect's Set/Elem/Field semantics as re-implemented in the model; tree values (aliasing is C02/C03).",
          "Lean 4 proof (mutual structural induction over types, induction over layers) + regenerated facts + differential correspondence with the Go implementation"),
+ 'C04': ("Lean 4 theorems over the runtime LTS (any number of sources/clients, every interleaving of the scheduler steps, all option combinations): Config fails exactly when the initial stack does not stack or (initial verification on) does not verify (C04_initial); the view changes only by the monitor's store step (C04_view_changes_only_by_store), which is reached only with the stack of the latest values, stacked and - unless verification is skipped - verified (C04_store_after_verify, C04_installed_verified, C04_skip_only_delay); everything observable through View/ViewVersion, Events, OnNewConfig, registered callbacks and EnableVerification is the initial or an installed version (C04_observed_are_versions); a rejected update leaves the view unchanged, queues OnWatchedError's event with the current config and (verify errors only) the rejected one unless the queue is full, and answers a blocking reporter with that error (C04_reject_payload, C04_reject, C04_reply_err).",
+         RT_NOTE, RT_TECH),
+ 'C05': ("Lean 4 theorems over the runtime LTS: the i-th install has serial i+1 and the view is the last install with serial = number of installs (C05_serial_succ, C05_view_is_last, C05_view_serial, regenerated serial expressions C05_serial_facts); the monitor's slots are each source's most recently received value and, between updates, whenever that stack is good the view IS that stack (C05_slots_latest, C05_fresh_when_good); a config and serial read together belong together (C05_pair_atomic); no reader sees the serial go backwards and the Events stream is strictly increasing over installed versions (C05_reader_monotone, C05_events_increasing, C05_events_are_installs). The harness additionally compares the final view with a fresh dials.Config over the latest values.",
+         RT_NOTE, RT_TECH),
  'C07': ("Lean 4 theorems over the runtime LTS: whenever the monitor answers a blocking reporter with nil, exactly one version was installed since it received that report and it holds the reported value (C07_nil_after_store, C07_view_at_reply); an error answer means nothing was installed and it is that update's stack/verify error (C07_err_view_unchanged); the waiting reporter gets exactly that answer (C07_reporter_gets_answer); a reporter whose context ends returns a context error (C07_ctx); the monitor's reply steps are always enabled (C07_monitor_never_blocks, capacities regenerated: C07_reply_capacity). Blank.SetSource is tied by correspondence (C20).",
          RT_NOTE, RT_TECH),
  'C09': ("Lean 4 theorems over the runtime LTS: Verify is never invoked before EnableVerification is called in delay mode (C09_never_early, C09_config_does_not_verify); enable verifies exactly the installed config (C09_verifies_installed), on success returns it with its serial and ends the delay, on failure leaves it in force (C09_enable_reply, C09_enable_dispatch, C09_switch_on_only_by_enable_reachable); afterwards every re-stack is verified (C09_then_every_restack_verified, C09_install_skip_flag); global callbacks are withheld exactly while the delay is in force and the option is set, source-reported errors included (C09_suppression_exact, C09_source_error_forwarded, regenerated guards C09_guard_facts). The no-watcher fast path is tied by correspondence only.",
